@@ -127,7 +127,18 @@ META["C05"] = {
     "technique": "explicit-state BFS over operation sequences on the implementation with envelope and differential (two-instance) oracles",
 }
 
-ENGINE_OF = {"C05": "seq", "C11": "seq", "C10": "seq+sched", "C12": "sched", "C03": "seq", "C06": "seq+sched", "C09": "sched", "C08": "seq", "C02": "seq+sched", "C04": "seq+sched", "C01": "seq+sched"}
+META["C13"] = {
+    "level": "model_checking",
+    "rule": "per rule module (flow, isolation, hotspot, circuit breaker, system, outlier) BFS over all sequences to the depth bound of LoadRules(list) / LoadRulesOfResource(res, list) / ClearRules / ClearRulesOfResource / identical reload, where list ranges over a catalogue of 13-29 lists built from 3 valid rules on resource a, one on b, ONE INVALID VARIANT PER CLAUSE of the module's IsValidRule and nil elements, every call with freshly allocated objects; after every operation the getters are compared with 'valid rules of the most recent load per resource, in order' (validity decided by the module's own exported IsValidRule); after the last operation of every path each resource is probed with traffic (batches / values / failing requests chosen so that any enforced rule, valid or not, shows through TriggeredRule); distinct = module + answers",
+    "assumptions": [A_CLOCK, A_OVERLAY, "rules whose Resource differs from the res argument of a per-resource load are outside the alphabet", "outlier: getters only (its enforcement is exercised by C20)", "probes run only after the last operation of a path, so they never disturb a successor state"],
+    "budget_quick": 90,
+    "budget_thorough": 900,
+    "text": "Explicit-state exploration of load/clear sequences on the real rule managers against a reference of the statement, with getters checked on every transition and enforcement probed in every reached state.",
+    "level_note": "Depth 3 (quick) / 4 (thorough) operations over 20-50 operations per module; finite catalogue of rule lists.",
+    "technique": "explicit-state BFS over operation sequences on the implementation with reference comparison and terminal probes",
+}
+
+ENGINE_OF = {"C13": "seq", "C05": "seq", "C11": "seq", "C10": "seq+sched", "C12": "sched", "C03": "seq", "C06": "seq+sched", "C09": "sched", "C08": "seq", "C02": "seq+sched", "C04": "seq+sched", "C01": "seq+sched"}
 
 # properties not claimed, with the reason (kept current)
 NOT_APPLICABLE = {}
